@@ -929,7 +929,7 @@ def op_trigger_column(g, dv, protected):
 
 def op_derived_trigger(g, dv, protected):
   """A data column whose trigger formula has a side effect when evaluated: it looks a record up in
-  another table and adds it when missing (what summary tables do). With recalcWhen NEVER the cells
+  another table and adds it when missing (what summary tables do). With recalcWhen NEVER (1) the cells
   are only ever evaluated by read-only calls (get_formula_error, evaluate_formula), at a time when
   the record they would add may well be missing."""
   ts = [t for t in data_tables(dv) if len(t.user_cols()) < g.max_cols]
@@ -950,7 +950,8 @@ def op_derived_trigger(g, dv, protected):
     # ... and then fails: the engine takes the record back that the failed evaluation added
     f = "x = " + f + "\nreturn x // 0"
   return [["AddColumn", t.tableId, g.new_col_id("t"),
-           {"type": "Int", "isFormula": False, "formula": f, "recalcWhen": g.rng.choice([2, 2, 0])}]]
+           # recalcWhen: 0 = DEFAULT (new records / recalcDeps), 1 = NEVER, 2 = MANUAL_UPDATES
+           {"type": "Int", "isFormula": False, "formula": f, "recalcWhen": g.rng.choice([1, 1, 2, 0])}]]
 
 
 def op_ref_trigger(g, dv, protected):
@@ -963,7 +964,7 @@ def op_ref_trigger(g, dv, protected):
     return None
   t, c = g.rng.choice(cands)
   return [["ModifyColumn", t.tableId, c.colId, {"formula": g.rng.choice(["value", "None", "$%s" % c.colId])}],
-          ["UpdateRecord", "_grist_Tables_column", c.ref, {"recalcWhen": g.rng.choice([0, 2])}]]
+          ["UpdateRecord", "_grist_Tables_column", c.ref, {"recalcWhen": g.rng.choice([0, 1, 2])}]]
 
 
 def op_error_trigger(g, dv, protected):
